@@ -183,6 +183,14 @@ def _b_row_fail2(step, env):
     return failing
 
 
+@core.builder('row_stopiter1')
+def _b_row_stopiter1(step, env):
+    def failing(row):
+        # e.g. next() on an exhausted side iterator: a failure like any other
+        raise StopIteration('row function fails with StopIteration on the first row it sees')
+    return failing
+
+
 @core.builder('load_tuple')
 def _b_load_tuple(step, env):
     st = mkstate([('lt', [('a', 'integer'), ('q', 'string')], [{'a': 5, 'q': 'u'}, {'a': 6, 'q': 'v'}])])
@@ -242,6 +250,7 @@ BUILTINS = {
     'gen150': {'op': 'gen150'},
     'gen_fail120': {'op': 'gen_fail120'},
     'row_fail2': {'op': 'row_fail2'},
+    'row_stopiter1': {'op': 'row_stopiter1'},
     'load_tuple': {'op': 'load_tuple'},
     'sources': {'op': 'sources2'},
     'parallelize1': S('parallelize', {'$fn': 'e1_par_rowfunc'}, 1),
@@ -259,6 +268,7 @@ SIGMA_NOKIND = list(BUILTINS) + ['user:%s:function' % r for r in ROLE_IMPL]     
 SIGMA_ROW = ['add_field', 'delete_fields', 'rename_fields', 'filter_rows', 'set_type', 'unpivot', 'duplicate',
              'concatenate', 'sort_rows', 'user:row_inplace:function', 'user:rows:function',
              'user:package:function', 'gen150', 'concatenate_r1r2', 'user:rows_peek:function']                                    # "Sigma12" + a one-shot generator source
+MUST_FAIL_IF_ROWS = {'row_stopiter1'}      # fail as soon as one row reaches them
 MUST_FAIL = {'gen_fail120'}      # links that fail by construction, whatever reaches them
 FILE_WRITERS = {'dump_to_path', 'dump_to_path_json', 'stream', 'checkpoint'}
 UNORDERED_SYMS = set()
@@ -530,7 +540,7 @@ def stepwise(init, path, memo=None):
                 memo['#transitions'] = memo.get('#transitions', 0) + 1
         if r['res'][0] == 'exc':
             return {'kind': 'exc', 'at': i, 'exc': r['res'][1], 'missing': r['missing']}
-        if sym in MUST_FAIL:
+        if sym in MUST_FAIL or (sym in MUST_FAIL_IF_ROWS and any(len(x) for x in state.rows)):
             return {'kind': 'swallowed', 'at': i}
         if r['missing']:
             if sym.startswith('user:row_') and not any(len(x) for x in state.rows):
@@ -592,6 +602,9 @@ def check_path(inp, path, memo=None, variants=False):
                      % path[sw['at']]))
         return viol, 'skipped', None
     if sw['kind'] == 'exc':
+        if lz['res'][0] != 'exc' and any(sym in EMPTYING_LINKS for sym in path[sw['at'] + 1:]):
+            # the failing step is never asked for the row it fails on: a later link does not read its input
+            return viol, 'rejected:stepwise-only(abandoned)', None
         if lz['res'][0] != 'exc':
             e = sw['exc']
             viol.append(('lazy-swallows', 'Flow(%s) returned normally although step %s raises %s (%s) on the materialised output '
